@@ -50,8 +50,9 @@ TRUSTED = [
     "and the harness checks every transport against it",
 ]
 PARTIAL = [
-    "Spec.Rejects is proved as C02_reject_partial (hypothesis `lossless`): temporal columns with second / millisecond units truncate "
-    "instead of rejecting — open finding, negation proved on a witness in Findings/C02.lean",
+    "Spec.Rejects is proved as C02_reject_partial (hypothesis `lossless env t v`: every temporal / decimal value inside v is stored "
+    "unchanged or refused): values with sub-unit parts in second / millisecond temporal columns are truncated and Decimals with a "
+    "39-digit coefficient are wrapped instead of rejected — two open findings, negation proved on witnesses in Findings/C02.lean",
     "Spec.Echoes is proved as C02_echo (for every value whose stored form is stable) + C02_stable / C02_echo_partial (stability under "
     "the environment laws for every supported type except dataclass parameters with transient or float32 fields, for which only "
     "the one-hop theorem C02_roundtrip is proved)",
@@ -72,11 +73,13 @@ RULE = (
 MANIFEST = {
     "level": "proof",
     "text": "Lean theorems for all types and values of the grammar: one hop returns the value (normalised to the declared width), "
-            "the echo returns it under the environment's idempotence law, non-representable values are rejected (temporal columns "
-            "coarser than a microsecond excluded: see the open finding), omitted arguments equal the declared defaults. Tied to "
+            "the echo returns it under the environment's idempotence law, non-representable values are rejected (sub-unit values of "
+            "temporal columns coarser than a microsecond and 39-digit decimal coefficients excluded: open findings), omitted "
+            "arguments equal the declared defaults. Tied to "
             "_wire.py / _types.py by extraction of the conversion tables and shapes and by differential echo runs over pipe and HTTP.",
-    "note": "pyarrow's conversion is environment (modelled, exercised). One defect repaired (Optional dataclass results), one open "
-            "finding (timestamp / time / duration columns with second or millisecond units truncate silently).",
+    "note": "pyarrow's conversion is environment (modelled, exercised). One defect repaired (Optional dataclass results), two open "
+            "findings (timestamp / time / duration columns with second or millisecond units truncate silently; Decimals with a "
+            "39-digit coefficient are wrapped modulo 2**128 by pyarrow instead of being refused).",
     "technique": "Lean 4 proof: induction on the type grammar + correspondence on generated echo services",
 }
 
